@@ -122,10 +122,11 @@ def parseCookieItems (s : String) : Option (List CookieItem) :=
   if s == "-" then some []
   else (s.splitOn ",").mapM fun c =>
     match c.splitOn ":" with
-    | [n, v, sp, w] => do
+    | [n, v, sp, w, e] => do
       let sp ← unhx sp
+      let esc : Option (List Bool) := if e == "t" then none else some (e.toList.map (· == '1'))
       match sp with
-      | [x] => pure { name := (← unhx n), value := (← unhx v), sep := x, ws := (← unhx w) }
+      | [x] => pure { name := (← unhx n), value := (← unhx v), sep := x, ws := (← unhx w), esc := esc }
       | _ => none
     | _ => none
 
